@@ -51,18 +51,18 @@ type ChanObj struct {
 }
 
 type scheduler struct {
-	in       *Interp
-	gs       []*goroutine
-	cur      *goroutine
-	explore  bool // fork over runnable goroutines at scheduling points
-	killing  bool
-	done     chan struct{} // main finished or aborted
-	abort    interface{}   // panic value raised in a non-main goroutine
-	nextChan int
-	events   []string
-	fine     bool
+	in            *Interp
+	gs            []*goroutine
+	cur           *goroutine
+	explore       bool // fork over runnable goroutines at scheduling points
+	killing       bool
+	done          chan struct{} // main finished or aborted
+	abort         interface{}   // panic value raised in a non-main goroutine
+	nextChan      int
+	events        []string
+	fine          bool
 	preemptBudget int
-	settling *goroutine // goroutine waiting in settle(): resumed when nothing else is runnable
+	settling      *goroutine // goroutine waiting in settle(): resumed when nothing else is runnable
 }
 
 func newScheduler(in *Interp) *scheduler {
